@@ -12,7 +12,7 @@ func init() {
 	Scenarios["C10"] = scenC10
 }
 
-var c10Phases = []string{"during-init", "runtime-working", "after-response", "during-timeout-reset", "during-failure-reset", "lock-window", "reset-tail", "double-reset", "during-upload"}
+var c10Phases = []string{"during-init", "runtime-working", "after-response", "during-timeout-reset", "during-failure-reset", "lock-window", "reset-tail", "double-reset", "during-upload", "caller-gone"}
 
 // lock sites on the tail of rapidcore.Server.Reset, after the sandbox was reset: state clearing and the hand-back
 var c10ResetTailSites = []string{"Server).Release<go.amzn.com/lambda/rapidcore.(*Server).Reset", "Server).Release<go.amzn.com/lambda/rapidcore.(*Server).Clear", "endReset", "setRapidPhase<go.amzn.com/lambda/rapidcore.(*Server).Reset", "setRuntimeState<go.amzn.com/lambda/rapidcore.(*Server).Reset", "Server).Clear"}
@@ -99,7 +99,7 @@ func scenC10(r *Run, job *Job) {
 				// the answer to the victim is uploaded in two halves, 300 ms apart
 				b.Script = []Op{{Kind: "next"}, {Kind: "stalled-upload", Arg: "response", D: 300 * time.Millisecond}}
 			}
-			if c10Phases[phase] == "runtime-working" {
+			if c10Phases[phase] == "runtime-working" || c10Phases[phase] == "caller-gone" {
 				b.Stalls = map[int]time.Duration{2*victim - 1: 300 * time.Millisecond} // before the response to the victim
 			}
 		} else if lateExit > 0 {
@@ -113,6 +113,10 @@ func scenC10(r *Run, job *Job) {
 		e.Plan = append(e.Plan, InvSpec{Payload: Tagged(fmt.Sprintf("plan%d", i+1), 24)})
 	}
 	made := 0
+	callerGone := false
+	var goneAt time.Duration
+	// the planned callers that follow come once the abandoned invocation has had the time to finish
+	e.Hold = func() bool { return callerGone && r.Now() < goneAt+time.Second }
 	inPhase := func() bool {
 		var v *Invocation
 		for _, inv := range w.Invokes {
@@ -120,7 +124,7 @@ func scenC10(r *Run, job *Job) {
 				v = inv
 			}
 		}
-		if v == nil || !v.Call.Pending() {
+		if v == nil || !v.Call.Pending() && !(callerGone && v.AnswerKind == "") {
 			return false
 		}
 		switch c10Phases[phase] {
@@ -137,6 +141,17 @@ func scenC10(r *Run, job *Job) {
 				}
 			}
 			return false
+		case "caller-gone":
+			// the victim's caller hangs up while the runtime is working; the invocation stays in flight
+			if v.Dispatched && v.AnswerKind == "" && !callerGone {
+				callerGone = true
+				goneAt = r.Now()
+				r.NextStep()
+				r.Fault("caller-hangs-up")
+				v.Conn.Close()
+				r.Settle()
+			}
+			return callerGone && v.AnswerKind == ""
 		case "double-reset":
 			// the first extra caller arrives when the teardown starts, the second one 1.2 s later
 			var first time.Duration = -1
@@ -247,6 +262,9 @@ func scenC10(r *Run, job *Job) {
 	}
 	// no effect on the planned invocations
 	for _, inv := range planned {
+		if callerGone && inv.N == victim {
+			continue // its caller hung up: there is nobody to answer
+		}
 		r.Check(inv.Call.Done && inv.Call.Err == nil, "C10.hang", "planned invocation %d: %s", inv.N, inv.Call)
 		st, body := inv.Call.Status, inv.Call.Body
 		if raced[inv] {
